@@ -47,6 +47,10 @@ CHECKS = {
             "bounded exhaustive single/pairwise field-mutation enumeration (reflection walk with a complete field classification) over transaction/block templates; all-pairs distinctness of derived IDs; era replay through the real ValidateBlock",
             "Every single (thorough: pairwise) field mutation of rich v1/v2 transaction templates changes the ID and all derived IDs iff the field is classified effect-bearing (unclassified fields fail the run); all derived-ID kinds x indices x parents are pairwise distinct; sighashes bind purpose (independent preimage model) and era (hash level and end-to-end replay across every era pair); every content mutation of real v1/v2 blocks is rejected or changes the ID, v2 commitments bind every encoded state field and the miner address.",
             "Classification table written from the statement (Appendix C). Fixed: V2SiafundInput.ClaimAddress was not bound (repo commit 9ffdb79). Known finding: input-less v1 transactions carry no replay prefix (legacy consensus).", "3/C12"),
+    "C13": ("E1", "model_checking",
+            "explicit-state exploration of header chains (all timestamp-delta sequences of length L from base states before every era boundary) over the real ApplyHeader/ApplyBlock/ValidateHeader with a math/big reference",
+            "For 8-18 parameter sets (intervals, initial targets, fork placements incl. 1000-block pre-Oak prefixes) and four prefix regimes, every sequence of L timestamp moves (minimum allowed by the median rule, +0, +interval/3, +interval, +3 intervals, +3 h, +100 years, +-1 s) from bases placed before every era boundary: no panic; per-era clamp (pre-Oak x0.4..x2.5 only at heights = 0 mod 500, Oak +-0.4% except the ASIC reset, v2 +-D/250, final cut +-max(D/250,1) and never 0); total work never decreases and strictly increases under v2; target/difficulty are each other's floored inverse in the era's direction, deprecated fields zero after the final cut; ApplyBlock on an empty block equals ApplyHeader field by field; ValidateHeader accepts iff parent, median time, nonce factor and work all hold (full truth table at visited states); SufficientlyHeavierThan asymmetric on all ordered pairs of up to 2000 states.",
+            "Saturation zone (results >= 2^255) excluded from the clamp oracle only; bounds L and parameter sets as reported.", "3/C13"),
     "C14": ("E2", "exploration",
             "bounded exhaustive enumeration of policy trees x witness vectors x lock neighbourhoods against an independent recursive evaluator and an independent address derivation",
             "All policy trees of the enumerated strata (every leaf kind and every unlock-conditions root; every threshold shape within the stated arity/depth/node budgets, every N in 0..arity+1) x every signature / preimage vector of every length 0..(consuming leaves+1) x heights h-1,h,h+1 and median times t-1s,t,t+1s: Verify agrees with the independent evaluator (accept/reject only); Address is invariant under every opaque substitution of sub-policies and a needed child made opaque turns acceptance into rejection; bit-flipped witnesses reject; complexity limits (255/256 children, 1024/1025 sub-policies, decode depth limit and limit+1) reject at limit+1 only; fast-path standard addresses equal the generic derivations and a naive Merkle root.",
